@@ -489,6 +489,29 @@ def iteration_isolation(ctx: Ctx, rule: str) -> None:
                                                             "parameters name only the last image" if writes else "the per-object copy / its restriction to the current object changed"))
 
 
+def root_fetch_purpose(ctx: Ctx, rule: str) -> None:
+    """check_states is also the prerequisite check of set/unset: when the state being set or removed is the root itself, fetching the
+    existing root first (possibly from the pool, over the local image that is about to be uploaded) defeats the operation."""
+    fref = f"{SETUP}:check_states"
+    loop = the_loop(ctx, fref, ast.For, lambda l: isinstance(l.iter, ast.Call) and call_name(l.iter) == "_parametric_object_iteration", "object loop of check_states")
+    views = loop_iteration_views(ctx, fref, loop, names_interesting({"get_root", "check_opts", "root_params"}))
+    n, bad = 0, None
+    for v in views:
+        for i, c in v.calls(lambda c: call_name(c) == "get_root"):
+            n += 1
+            prem = v.premise(i, 0)
+            if not any("check_opts" in a and "soft_boot" not in a for a in norm.atoms_of(prem)):
+                bad = bad or v
+    fc = ctx.repo.func(f"{SETUP}:_state_check_chain")
+    ctx.touch(fc.ref)
+    tells = any(isinstance(n_, ast.Name) and n_.id == "ROOTS" for n_ in ast.walk(fc.node))
+    ok = n >= 1 and bad is None and tells
+    ctx.record(rule, "GUARD", fref, "the root is fetched by a check only if the check is not the prerequisite of setting / removing that very root (an option passed down by _state_check_chain)",
+               ok, {"get_root_sites": n, "chain_knows_roots": tells},
+               "" if ok else "check_states fetches an existing root on every path, also as the prerequisite check of set/unset of the root itself: with pool_scope=shared the pool copy "
+               "is downloaded over the local image just before it is uploaded (or the upload fails because the pool is empty)")
+
+
 def object_param_provenance(ctx: Ctx, rule: str) -> None:
     """Inside the per-object loop every parameter is read from the drilled-down per-object view, never from the call's run_params."""
     ops = ("show", "check", "get", "set", "unset", "push", "pop")
@@ -518,6 +541,7 @@ def run(ctx: Ctx) -> None:
     ctx.call(op_table, "2", "set")
     ctx.call(op_table, "3", "unset")
     ctx.call(check_table, "4")
+    ctx.call(root_fetch_purpose, "4g")
     ctx.call(push_pop, "5")
     ctx.call(readme_table, "7")
     ctx.call(check_chain, "9")
